@@ -29,6 +29,16 @@ let parse_env (tok : string) : env =
           Some (nm, v)
         | _ -> None) (split_on ';' tok)
 
+(* the generator names operators by a pinned id (1 = ||, 2 = &&, 3 = ==, 4 = !=, 5 = >=, 6 = <=, 7 = >,
+   8 = <, 9 = |, 10 = &, 11 = +, 12 = -, 13 = *, 14 = /, 15 = %, 16 = ^); the oracle reads them by
+   MEANING through the current tables, so that renumbering the enum cannot confuse the verdict *)
+let op_of_id (i : int) : n =
+  match i with
+  | 1 -> op_Or | 2 -> op_And | 3 -> op_Equal | 4 -> op_NotEqual | 5 -> op_GreaterOrEqual | 6 -> op_LessOrEqual
+  | 7 -> op_Greater | 8 -> op_Less | 9 -> op_BitwiseOr | 10 -> op_BitwiseAnd | 11 -> op_Addition
+  | 12 -> op_Subtraction | 13 -> op_Multiplication | 14 -> op_Division | 15 -> op_Remainder | 16 -> op_Exponent
+  | _ -> failwith "op id"
+
 (* tree: prefix tokens separated by '/':  o<op> l r | p t | n<dec> | i<signed> | d<num>_<den> | t<units '.'> | v<name> *)
 let parse_tree (tok : string) : stree =
   let toks = ref (split_on '/' tok) in
@@ -37,7 +47,7 @@ let parse_tree (tok : string) : stree =
   let rec go () =
     let t = next () in
     match t.[0] with
-    | 'o' -> let op = n_of_string (rest t) in let l = go () in let r = go () in SNode (op, l, r)
+    | 'o' -> let op = op_of_id (int_of_string (rest t)) in let l = go () in let r = go () in SNode (op, l, r)
     | 'p' -> SParen (go ())
     | 'n' -> SLeaf (SLNat (n_of_string (rest t)))
     | 'i' -> SLeaf (SLInt (z_of_string (rest t)))
